@@ -205,6 +205,7 @@ type modelEnv struct {
 	decls     []string          // extra top-level declarations (gauge wrappers)
 	pre       []string          // statements before the call
 	declBase  int
+	cells     map[*Cell]Val // entry contents of modelled objects (pointer parameters)
 }
 
 func (me *modelEnv) intOf(t *Term) (*big.Int, bool) {
@@ -283,6 +284,11 @@ func (me *modelEnv) goExpr(name string, v Val, t types.Type) (string, bool) {
 		for i, f := range x.F {
 			e, ok := me.goExpr(name+"."+st.Field(i).Name(), f, st.Field(i).Type())
 			if !ok {
+				switch st.Field(i).Type().Underlying().(type) {
+				case *types.Pointer, *types.Interface, *types.Slice, *types.Map, *types.Signature:
+					// a part of the object the contract does not talk about
+					continue
+				}
 				return "", false
 			}
 			parts = append(parts, st.Field(i).Name()+": "+e)
@@ -291,6 +297,16 @@ func (me *modelEnv) goExpr(name string, v Val, t types.Type) (string, bool) {
 	case PtrV:
 		switch x.K {
 		case PNil:
+			return "nil", true
+		case PCell:
+			// pointer to a modelled object: &T{...} from its entry contents
+			if me.cells != nil {
+				if cv, ok := me.cells[x.Cell]; ok && len(x.Path) == 0 {
+					if e, ok := me.goExpr(name, cv, x.Elem); ok && strings.Contains(e, "{") {
+						return "&" + e, true
+					}
+				}
+			}
 			return "nil", true
 		case PBig:
 			ref, ok := me.intOf(x.Ref)
@@ -361,7 +377,15 @@ func (me *modelEnv) goExpr(name string, v Val, t types.Type) (string, bool) {
 		}
 		p, ok := x.Sym.Payloads[typeKey(ct)]
 		if !ok {
-			// a type the function never looked into: any value of that type; only numeric zero values are constructible
+			// a type the function never looked into: build a value of that type from the ghost integer part
+			if g, have := x.Sym.Ghosts["mval"]; have {
+				if mv, ok2 := me.intOf(g); ok2 {
+					if e, ok3 := me.fromInt(ct, mv); ok3 {
+						me.desc = append(me.desc, fmt.Sprintf("%s=%s(%s)", name, me.qual(ct), mv))
+						return e, true
+					}
+				}
+			}
 			return "", false
 		}
 		return me.goExpr(name, p, ct)
@@ -589,6 +613,9 @@ func (p *Program) judge(fr *FuncResult, model map[string]string, oc *outcome, wo
 	for _, pv := range ex.ParamVals {
 		collectValSyms(pv, declared)
 	}
+	for _, cv := range ex.Entry.Cells {
+		collectValSyms(cv, declared)
+	}
 	for _, n := range names {
 		s, ok := declared[n]
 		if !ok {
@@ -790,6 +817,53 @@ func (p *Program) judge(fr *FuncResult, model map[string]string, oc *outcome, wo
 		if ob.err != "" {
 			verdict = "observed result not comparable: " + ob.err
 			return
+		}
+		binds = ob.facts
+		// post-state of objects passed by pointer: the harness appended their fields after the results
+		idx := results.Len()
+		for pi, prm := range fn.Params {
+			pt, ok := prm.Type().Underlying().(*types.Pointer)
+			if !ok {
+				continue
+			}
+			stt, ok := pt.Elem().Underlying().(*types.Struct)
+			if !ok {
+				continue
+			}
+			pv, ok := ex.ParamVals[fr.ParamNames[pi]].(PtrV)
+			if !ok || pv.K != PCell || len(oc.Results) < idx+stt.NumFields() {
+				continue
+			}
+			oldV, _ := ex.Entry.Cells[pv.Cell].(StructV)
+			nv := StructV{Typ: pt.Elem()}
+			for fi := 0; fi < stt.NumFields(); fi++ {
+				ft := stt.Field(fi).Type()
+				o := oc.Results[idx+fi]
+				switch ft.Underlying().(type) {
+				case *types.Basic, *types.Interface:
+					ex.resultMode = true
+					fv := ex.symVal(st, fmt.Sprintf("obsF%d_%d", pi, fi), ft, 1)
+					ex.resultMode = false
+					ob.bind(fv, o, ft)
+					if iv, isI := fv.(IfaceV); isI && !o.Nil {
+						if ct := ob.lookupObservedType(o.Type); ct != nil && ob.constructible(ct) && (o.Int != "" || o.Bool != nil) {
+							// numeric payload: tie the ghost integer value to the observation
+							if n, okN := new(big.Int).SetString(o.Int, 10); okN {
+								ob.facts = append(ob.facts, Eq(ex.ifaceGhost(st, iv, "mval"), IntBig(n)))
+							}
+						}
+					}
+					nv.F = append(nv.F, fv)
+				default:
+					if oldV.F != nil {
+						nv.F = append(nv.F, oldV.F[fi])
+					} else {
+						nv.F = append(nv.F, ex.zeroVal(st, ft))
+					}
+				}
+			}
+			st.Cells[pv.Cell] = nv
+			idx += stt.NumFields()
 		}
 		binds = ob.facts
 		penv := &SpecEnv{ex: ex, st: st, old: ex.Entry, vars: vars, vtypes: entryEnv.vtypes, pkg: fn.Pkg.Pkg, contract: c}
@@ -1014,6 +1088,35 @@ func collectValSyms(v Val, out map[string]Sort) {
 			for _, p := range x.Sym.Payloads {
 				collectValSyms(p, out)
 			}
+			for _, g := range x.Sym.Ghosts {
+				CollectSyms(g, out)
+			}
 		}
 	}
+}
+
+// fromInt: a Go expression for the value of numeric type t whose integer value is n (integer kinds only)
+func (me *modelEnv) fromInt(t types.Type, n *big.Int) (string, bool) {
+	if bits, signed, ok := intInfo(t); ok {
+		lo, hi := big.NewInt(0), new(big.Int).Sub(Pow2(bits), big.NewInt(1))
+		if signed {
+			lo, hi = new(big.Int).Neg(Pow2(bits-1)), new(big.Int).Sub(Pow2(bits-1), big.NewInt(1))
+		}
+		if n.Cmp(lo) < 0 || n.Cmp(hi) > 0 {
+			return "", false
+		}
+		return fmt.Sprintf("%s(%s)", me.qual(t), n), true
+	}
+	st, ok := t.Underlying().(*types.Struct)
+	if !ok || st.NumFields() != 1 {
+		return "", false
+	}
+	ft := st.Field(0).Type()
+	if isBigIntPtr(ft) {
+		return fmt.Sprintf("%s{%s: verifBig(%q)}", me.qual(t), st.Field(0).Name(), n.String()), true
+	}
+	if inner, ok := me.fromInt(ft, n); ok {
+		return fmt.Sprintf("%s{%s: %s}", me.qual(t), st.Field(0).Name(), inner), true
+	}
+	return "", false
 }
